@@ -1,14 +1,18 @@
 #!/bin/sh
 # tools/seedrun2.sh <seed-dir> <property>... : run the quick checks against a scratch worktree of /repo
-# with the seeded change applied (VERIF_REPO), leaving /repo and /verif/evidence untouched.
+# with the seeded change applied (VERIF_REPO), leaving /repo and the committed evidence untouched.
 set -u
-d="$1"; shift
+here="$(cd "$(dirname "$0")/.." && pwd)"
+d="$(cd "$1" && pwd)"; shift
 wt=/tmp/wt/seedrepo-$$
+mkdir -p /tmp/wt
 git -C /repo worktree add -q --detach "$wt" HEAD || exit 2
-( cd "$wt" && git apply "$d/patch.diff" ) || { echo "patch does not apply"; git -C /repo worktree remove --force "$wt"; exit 2; }
+( cd "$wt" && git apply "$d/patch.diff" ) || { echo "== $(basename $d): patch does not apply"; git -C /repo worktree remove --force "$wt"; exit 2; }
 for p in "$@"; do
-  out=$(cd /verif && VERIF_REPO="$wt" VERIF_OUT_DIR=/tmp/wt/seedout-$$ ./check "$p" --tier ${TIER:-quick} 2>/dev/null | grep "^OK\|^VIOLATION\|^ENGINE-ERROR\|^KNOWN" | sort -r | head -4)
-  echo "== $(basename $d) $p: $(echo "$out" | head -3 | cut -c1-260)"
+  out=$(cd "$here" && VERIF_REPO="$wt" VERIF_OUT_DIR=/tmp/wt/seedout-$$ ./check "$p" --tier ${TIER:-quick} 2>/dev/null | grep "^OK\|^VIOLATION\|^ENGINE-ERROR\|^KNOWN" | sort -r | head -3)
+  verdict=MISSED
+  echo "$out" | grep -q "^VIOLATION" && verdict=DETECTED
+  echo "== $(basename $d) $p $verdict: $(echo "$out" | head -2 | cut -c1-160 | tr '\n' ' ')"
 done
 git -C /repo worktree remove --force "$wt"
 rm -rf /tmp/wt/seedout-$$
